@@ -2,6 +2,7 @@ SPECIFICATION Spec
 CONSTANTS
   Ids <- Ids3
   RelOrder <- Rel2
+  MaxLoad = 2
   MaxInit = 1
   SampleT = 1
   SampleS = 1
